@@ -81,14 +81,31 @@ class World:
             out += "[Key]\nName = filler %d\nPublicKey = %s\n\n" % (i, enc)
         return out
 
-    def keyring(self, sender_pos="first", bob_private=True, alice_private=True, with_lo=True, fill=True):
+    def keyring(self, sender_pos="first", bob_private=True, alice_private=True, with_lo=True, fill=True, huge=False):
+        """huge: more than a megabyte of further entries (no bound on the size of a keyring is part of the format; whatever
+        comes late in the file counts like what comes first)."""
         k = self.keys
         ents = []
         alice = ("alice", k["alice"], alice_private)
         others = [("bob", k["bob"], bob_private), ("carol", k["carol"], True)]
-        filler = self.fillers() if fill else ""
+        if huge:
+            if not hasattr(self, "_huge"):
+                self._huge = self.fillers(14000)
+            filler = self._huge
+        else:
+            filler = self.fillers() if fill else ""
         # names that differ from the real ones only in letter case are other names, bound to other keys
         decoys = "[Key]\nName = BOB\nPublicKey = %s\n\n[Key]\nName = Alice\nPublicKey = %s\n\n" % (self.other_pub_enc(1), self.other_pub_enc(2))
+        # entries whose encoded key is NOT the sender's but close to it in ways an inexact comparison confuses: two characters
+        # transposed (same multiset of characters), reversed, letter case swapped, same first 40 / last 40 characters.  The
+        # parser takes them (only the shape of an unused entry is checked); they come before the real entry and name nobody
+        enc_a = k["alice"]["pub_enc"]
+        i0 = next(i for i in range(len(enc_a) - 1) if enc_a[i] != enc_a[i + 1])
+        o3 = self.other_pub_enc(3)
+        near = [enc_a[:i0] + enc_a[i0 + 1] + enc_a[i0] + enc_a[i0 + 2:], enc_a[::-1], enc_a.swapcase(), enc_a[:40] + o3[40:], o3[:8] + enc_a[8:]]
+        for n_, e_ in enumerate(near):
+            if e_ != enc_a:
+                decoys += "[Key]\nName = near alice %d\nPublicKey = %s\n\n" % (n_, e_)
         if sender_pos == "badsum":
             # alice's 32 key bytes with a checksum that does not match: not a usable key, names nobody
             enc = k["alice"]["pub_enc"]
@@ -135,7 +152,8 @@ def run_config(w, c, idx, psize=None):
     env = {}
     with cli.Sandbox(w.pid, "cfg") as sb:
         # longer than anything a successful command writes, so that a missing truncation shows
-        prior = b"PRIOR CONTENT OF THE OUTPUT PATH\n" * (3 if cause != "none" else 4000)
+        # (also longer than the authenticated prefix a later-chunk failure leaves behind)
+        prior = b"PRIOR CONTENT OF THE OUTPUT PATH\n" * (4000 if cause in ("none", "corrupt_later_chunk", "truncated_later_chunk", "appended_data") else 3)
         out_path = sb.path("out.bin")
         # ---- input ----
         expected_full = None
@@ -215,10 +233,21 @@ def run_config(w, c, idx, psize=None):
                 with open(out_path, "wb") as f:
                     f.write(prior)
         if cmd in ("encrypt", "decrypt"):
-            krtext = w.keyring(sender_pos=c["sender"],
+            huge = c.get("krsize", "normal") != "normal"
+            krtext = w.keyring(sender_pos=c.get("alice_pos", c["sender"]),
                                bob_private=not (cmd == "decrypt" and cause == "no_private_key"),
-                               alice_private=not (cmd == "encrypt" and cause == "no_private_key"))
-            if cause == "malformed_keyring":
+                               alice_private=not (cmd == "encrypt" and cause == "no_private_key"), huge=huge)
+            if cause == "malformed_keyring" and huge:
+                # well-formed for more than a megabyte, then a section that repeats the name "bob" with another key; with
+                # "huge_aligned" a comment pads the file so that a section ends exactly at byte 2^20
+                if c["krsize"] == "huge_aligned":
+                    cut = krtext.encode().rfind(b"\n\n[Key]", 0, 1048576 - 40)
+                    head = krtext.encode()[:cut + 2]
+                    pad = 1048576 - len(head) - 3
+                    krtext = (head + b"# " + b"p" * pad + b"\n" + krtext.encode()[cut + 2:]).decode()
+                    assert krtext.encode()[1048576:1048581] == b"[Key]"
+                krtext = krtext.rstrip("\n") + "\n\n[Key]\nName = bob\nPublicKey = %s\n" % w.other_pub_enc(9)
+            elif cause == "malformed_keyring":
                 krtext = "[Key]\nName = x\nthis is not a keyring\n"
             kr_path = sb.path("keyring.txt")
             if cause == "non_utf8_keyring":
@@ -496,14 +525,18 @@ def initial_file(w, kind):
     raise ValueError(kind)
 
 
-def exec_gen_history(w, hid, initial, n):
-    """n x `kestrel key generate -o F --env-pass` on one path; after each step the contract's observations."""
+def exec_gen_history(w, hid, initial, n, vias=None):
+    """n x `kestrel key generate -o F --env-pass` on one file; after each step the contract's observations.  vias: by which of
+    its names the file is given at each step (KeyLife!PathKinds)."""
     evs = []
+    vias = list(vias or ["direct"] * n)
     with cli.Sandbox(w.pid, "gen") as sb:
-        f = sb.path("keyring.txt")
+        f_direct = sb.path("keyring.txt")
         init = initial_file(w, initial)
         if init is not None:
             sb.write("keyring.txt", init)
+        os.symlink("keyring.txt", sb.path("link.txt"))
+        os.mkdir(sb.path("sub"))
         names = []
         pws = []
         for k in range(n):
@@ -516,6 +549,17 @@ def exec_gen_history(w, hid, initial, n):
             assert len(name.encode()) <= 128
             pw = GEN_PASSWORDS[(k + 3 * int(hid[1:])) % len(GEN_PASSWORDS)]
             before = sb.read("keyring.txt")
+            via = vias[k]
+            if via == "symlink":
+                f = sb.path("link.txt")
+            elif via == "dotdot":
+                f = sb.path("sub") + "/../keyring.txt"
+            elif via == "hardlink" and before is not None:
+                f = sb.path("hard.txt")
+                if not os.path.exists(f):
+                    os.link(f_direct, f)
+            else:
+                f = f_direct
             genv = {"KESTREL_PASSWORD": pw}
             if (k + int(hid[1:])) % 2:
                 genv["KESTREL_NEW_PASSWORD"] = "stale new password"      # only change-pass reads it
@@ -551,7 +595,7 @@ def exec_gen_history(w, hid, initial, n):
                     usable = bool(u.get("ok")) and u.get("pub_enc") == mblk.group(1)
                 elif usable:
                     usable = False
-            evs.append({"ev": "gen", "id": "%s.%d" % (hid, k), "initial": initial, "step": k, "exit": r.rc, "prefix_kept": prefix_kept,
+            evs.append({"ev": "gen", "id": "%s.%d" % (hid, k), "initial": initial, "via": via, "step": k, "exit": r.rc, "prefix_kept": prefix_kept,
                         "parses": parses, "names_present": bool(names_present), "usable": usable,
                         "size_before": -1 if before is None else len(before), "size_after": len(after), "stderr": r.err_text[-200:]})
         # every earlier key still usable at the end (decrypting a message to it)
@@ -595,7 +639,7 @@ def validate_events(rep, pid, name, evs, prefixes):
 def c14(pid, tier, seed, selftest=False):
     rep = Report(pid, tier, seed)
     rep.rule = ("histories {initial state of F: absent, empty, keyring with / without trailing newline, with comments} x n key "
-                "generations (distinct names, passwords incl. empty / non-ASCII / 200 bytes), enumerated by TLC from KeyLife.tla "
+                "generations, each naming F by one of {plain path, symbolic link, path through sub/.., second hard link} (distinct names, passwords incl. empty / non-ASCII / 200 bytes), enumerated by TLC from KeyLife.tla "
                 "(invariant KeepsKeys); after each `kestrel key generate -o F` step: the earlier bytes are a prefix, the file is "
                 "accepted by the tree's Keyring::new and lists the sections in order, and the new key encrypts-then-decrypts "
                 "through the CLI under its own password; non-trivial = F existed before the step")
@@ -614,6 +658,10 @@ def c14(pid, tier, seed, selftest=False):
         rep.add_model("neg-truncate", r, "deviation TruncateOnGenerate (the pinned code, D4) must break KeepsKeys")
         if r.violated != "KeepsKeys":
             raise ToolError("negative variant TruncateOnGenerate: got %s" % r.violated)
+        r = run_tlc(pid, "neg-lstat", "KeyLife", life_cfg(2, "LookDoesNotFollowLinks", ["KeepsKeys"]), workers=1, timeout=120)
+        rep.add_model("neg-lstat", r, "deviation LookDoesNotFollowLinks (existence test does not resolve a symbolic link) must break KeepsKeys")
+        if r.violated != "KeepsKeys":
+            raise ToolError("negative variant LookDoesNotFollowLinks: got %s" % r.violated)
         # beyond C14 (which quantifies over SEQUENCES of commands): two generate processes at once on one file.  Recorded as
         # an observation only: the model keeps every key when F exists and loses one when F is absent (check-then-create)
         for present, want in ((True, None), (False, "KeepsKeys")):
@@ -630,7 +678,7 @@ def c14(pid, tier, seed, selftest=False):
     hists = [r for r in res.replays if r["mode"] == "gen"]
     w = World(pid, tpl, seed)
     with cf.ThreadPoolExecutor(max_workers=NCPU) as ex:
-        all_evs = list(ex.map(lambda ih: exec_gen_history(w, "g%d" % ih[0], ih[1]["initial"], ih[1]["n"]), list(enumerate(hists))))
+        all_evs = list(ex.map(lambda ih: exec_gen_history(w, "g%d" % ih[0], ih[1]["initial"], ih[1]["n"], ih[1].get("vias")), list(enumerate(hists))))
     evs = [e for x in all_evs for e in x]
     for e in evs:
         rep.case(e["id"], e["size_before"] >= 0)
@@ -646,24 +694,46 @@ LIFE_PW = {"p0": "", "p1": "a", "p2": "päss 世界", "p3": "L" * 200}
 LIFE_PW_B = {"p0": "hunter2", "p1": "hunter2 ", "p2": "\thunter2", "p3": "B" * 64}
 
 
+def _utf8(b):
+    try:
+        b.decode("utf-8")
+        return True
+    except UnicodeDecodeError:
+        return False
+
+
+# a third reading: passwords as BYTES in the environment, some of them not UTF-8.  Such a password may be refused (the step
+# then changes nothing); taken, it is the password as given - two different byte strings never are the same password
+LIFE_PW_C = {"p0": b"kestrel-\xff-pass", "p1": b"kestrel-\xfe-pass", "p2": b"plain", "p3": b"\xc3"}
+
+
 def exec_life_history(w, hid, first, ops):
     evs = []
-    pwmap = LIFE_PW_B if int(hid[1:]) % 2 else LIFE_PW
+    hn = int(hid[1:])
+    pwmap = LIFE_PW_C if hn % 5 == 4 else (LIFE_PW_B if hn % 2 else LIFE_PW)
+    pwmap = {k: (v if isinstance(v, bytes) else v.encode()) for k, v in pwmap.items()}
+
+    def penv(**kw):
+        return {k.encode(): v for k, v in kw.items()}
     with cli.Sandbox(w.pid, "life") as sb:
         pw = pwmap[first]
-        genv = {"KESTREL_PASSWORD": pw}
-        if int(hid[1:]) % 3 == 1:
-            genv["KESTREL_NEW_PASSWORD"] = "stale new password"          # only change-pass reads it
-        r = cli.kestrel(["key", "generate", "--env-pass"], env=genv, stdin=b"lifekey\n")
+        genv = penv(KESTREL_PASSWORD=pw)
+        if hn % 3 == 1:
+            genv[b"KESTREL_NEW_PASSWORD"] = b"stale new password"          # only change-pass reads it
+        r = cli.kestrel(["key", "generate", "--env-pass"], raw_env=genv, stdin=b"lifekey\n")
         m = re.search(rb"PublicKey = (\S+)\nPrivateKey = (\S+)", r.out)
+        if r.rc != 0 and not _utf8(pw):
+            # refused: nothing was generated, nothing to follow
+            return [{"ev": "life", "id": hid + ".gen", "op": "generate", "exit": r.rc, "refusable": True, "identity_kept": True,
+                     "old_passwords_dead": True, "salt_fresh": True, "pub_matches": True, "secret_leaked": False}]
         if r.rc != 0 or not m:
-            return [{"ev": "life", "id": hid + ".gen", "op": "generate", "exit": r.rc if r.rc != 0 else 1, "identity_kept": False,
+            return [{"ev": "life", "id": hid + ".gen", "op": "generate", "exit": r.rc if r.rc != 0 else 1, "refusable": False, "identity_kept": False,
                      "old_passwords_dead": True, "salt_fresh": True, "pub_matches": False, "secret_leaked": False}]
         pub_line = m.group(1).decode()
         locked = m.group(2).decode()
-        u = cli.driver_ops(w.pid, w.tpl, [{"op": "unlock", "locked": locked, "password_hex": pw.encode().hex()}], w.seed, "life")[0]
+        u = cli.driver_ops(w.pid, w.tpl, [{"op": "unlock", "locked": locked, "password_hex": pw.hex()}], w.seed, "life")[0]
         if not u.get("ok"):
-            return [{"ev": "life", "id": hid + ".gen", "op": "generate", "exit": 0, "identity_kept": False,
+            return [{"ev": "life", "id": hid + ".gen", "op": "generate", "exit": 0, "refusable": False, "identity_kept": False,
                      "old_passwords_dead": True, "salt_fresh": True, "pub_matches": False, "secret_leaked": False}]
         sk = u["sk_hex"]
         forms = [bytes.fromhex(sk), sk.encode(), sk.upper().encode(), base64.b64encode(bytes.fromhex(sk))]
@@ -679,17 +749,21 @@ def exec_life_history(w, hid, first, ops):
             tag = "%s.%d" % (hid, k)
             if op[0] == "changepass":
                 new = pwmap[op[1]]
-                r = cli.kestrel(["key", "change-pass", locked, "--env-pass"], env={"KESTREL_PASSWORD": pw, "KESTREL_NEW_PASSWORD": new})
+                r = cli.kestrel(["key", "change-pass", locked, "--env-pass"], raw_env=penv(KESTREL_PASSWORD=pw, KESTREL_NEW_PASSWORD=new))
                 outputs.append(r.out + r.err)
                 m = re.search(rb"PrivateKey = (\S+)", r.out)
                 ident = False
                 dead = True
                 fresh = True
-                if r.rc == 0 and m:
+                refusable = not (_utf8(pw) and _utf8(new))
+                if r.rc != 0 and refusable:
+                    # refused: the newest string still is the one before
+                    ident = True
+                elif r.rc == 0 and m:
                     locked = m.group(1).decode()
                     pw = new
                     pws.append(new)
-                    tries = [{"op": "unlock", "locked": locked, "password_hex": p.encode().hex()} for p in sorted(set(pws))]
+                    tries = [{"op": "unlock", "locked": locked, "password_hex": p.hex()} for p in sorted(set(pws))]
                     res = cli.driver_ops(w.pid, w.tpl, tries, w.seed, "life")
                     byp = dict(zip(sorted(set(pws)), res))
                     ident = bool(byp[new].get("ok")) and byp[new].get("sk_hex") == sk
@@ -697,10 +771,17 @@ def exec_life_history(w, hid, first, ops):
                     if byp[new].get("ok"):
                         fresh = byp[new]["salt_hex"] not in salts
                         salts.append(byp[new]["salt_hex"])
-                evs.append({"ev": "life", "id": tag, "op": "changepass", "exit": r.rc, "identity_kept": ident, "old_passwords_dead": dead,
-                            "salt_fresh": fresh, "pub_matches": True, "secret_leaked": leaked()})
+                    # ... and through the tool itself: every earlier password that is another byte string is refused by it
+                    for p in sorted(set(pws)):
+                        if p != new:
+                            x = cli.kestrel(["key", "extract-pub", locked, "--env-pass"], raw_env=penv(KESTREL_PASSWORD=p))
+                            outputs.append(x.out + x.err)
+                            if x.rc == 0:
+                                dead = False
+                evs.append({"ev": "life", "id": tag, "op": "changepass", "exit": r.rc, "refusable": refusable, "identity_kept": ident,
+                            "old_passwords_dead": dead, "salt_fresh": fresh, "pub_matches": True, "secret_leaked": leaked()})
             elif op[0] == "extractpub":
-                r = cli.kestrel(["key", "extract-pub", locked, "--env-pass"], env={"KESTREL_PASSWORD": pw})
+                r = cli.kestrel(["key", "extract-pub", locked, "--env-pass"], raw_env=penv(KESTREL_PASSWORD=pw))
                 outputs.append(r.out + r.err)
                 m = re.search(rb"PublicKey = (\S+)", r.out)
                 evs.append({"ev": "life", "id": tag, "op": "extractpub", "exit": r.rc, "identity_kept": True, "old_passwords_dead": True,
@@ -712,7 +793,7 @@ def exec_life_history(w, hid, first, ops):
                 sb.write("kr.txt", kr)
                 sb.write("m.txt", b"hello")
                 e = cli.kestrel(["encrypt", sb.path("m.txt"), "-t", "bob", "-f", "lifekey", "-o", sb.path("m%d.ktl" % k), "-k", sb.path("kr.txt"),
-                                 "--env-pass"], env={"KESTREL_PASSWORD": pw})
+                                 "--env-pass"], raw_env=penv(KESTREL_PASSWORD=pw))
                 outputs.append(e.out + e.err)
                 ok = False
                 if e.rc == 0:
@@ -722,6 +803,8 @@ def exec_life_history(w, hid, first, ops):
                     ok = d.rc == 0 and d.out == b"hello" and "File from: lifekey" in d.err_text
                 evs.append({"ev": "life", "id": tag, "op": "use", "exit": 0 if ok else 1, "identity_kept": ok, "old_passwords_dead": True,
                             "salt_fresh": True, "pub_matches": True, "secret_leaked": leaked()})
+    for e in evs:
+        e.setdefault("refusable", False)
     return evs
 
 
@@ -1205,8 +1288,11 @@ def process_level_lag(rep, pid, tpl, seed):
     w = World(pid, tpl, seed)
     runs = []
     for mode in ("key", "pass"):
-        for chunks in ([4096] * 40, [1000] * 30 + [65536, 7], [1] * 50):
-            op = {"op": "specfile", "api": mode, "chunks": chunks, "pseed": 21, "tag": "lag", "out": os.path.join(w.dir, "lag.ktl")}
+        # content classes: a sink that treats some content specially (all-zero blocks as holes, text, 0xff) must still let
+        # every chunk out in time
+        for chunks, fill in (([4096] * 40, "prng"), ([1000] * 30 + [65536, 7], "prng"), ([1] * 50, "prng"),
+                             ([4096] * 24, "zero"), ([65536] * 9 + [5], "zero"), ([8192] * 12, "ff"), ([4096] * 12, "text")):
+            op = {"op": "specfile", "api": mode, "chunks": chunks, "pseed": 21, "tag": "lag", "fill": fill, "out": os.path.join(w.dir, "lag.ktl")}
             if mode == "key":
                 op.update({"s_priv_hex": w.keys["alice"]["sk_hex"], "r_pub_hex": w.keys["bob"]["pk_hex"]})
             else:
@@ -1214,7 +1300,7 @@ def process_level_lag(rep, pid, tpl, seed):
             cli.driver_ops(pid, tpl, [op], seed, "lagfile")
             data = open(os.path.join(w.dir, "lag.ktl"), "rb").read()
             plain = open(os.path.join(w.dir, "lag.ktl.plain"), "rb").read()
-            runs.append(strace_decrypt(w, "lag-%s-%dx%d" % (mode, len(chunks), chunks[0]), data, plain, "must_accept", len(chunks), mode,
+            runs.append(strace_decrypt(w, "lag-%s-%s-%dx%d" % (mode, fill, len(chunks), chunks[0]), data, plain, "must_accept", len(chunks), mode,
                                        chunks=chunks))
     evs = [e for r in runs for e in r]
     wd = workdir(pid, "run-lag", clean=True)
